@@ -36,6 +36,7 @@ import (
 	banktypes "github.com/cosmos/cosmos-sdk/x/bank/types"
 	stakingtypes "github.com/cosmos/cosmos-sdk/x/staking/types"
 	"github.com/ethereum/go-ethereum/common"
+	"github.com/ethereum/go-ethereum/core/vm"
 	evmtypes "github.com/evmos/ethermint/x/evm/types"
 
 	"github.com/functionx/fx-core/v8/contract"
@@ -64,6 +65,7 @@ type env struct {
 	signer  *helpers.Signer
 	owner   *helpers.Signer // EOA with a delegation that approved every pool contract
 	owner2  *helpers.Signer // EOA with a tiny delegation and a large allowance for every pool contract
+	direct  *helpers.Signer // EOA that calls the precompiles directly (transaction `to` = precompile)
 	sink    common.Address  // receiver of share transfers
 	pool    []common.Address
 	poolIdx map[common.Address]int
@@ -103,6 +105,7 @@ func setup(t *testing.T, out *hx.Out) *env {
 	e.signer = s.AddTestSigner(100_000)
 	e.owner = s.AddTestSigner(100_000)
 	e.owner2 = s.AddTestSigner(100_000)
+	e.direct = s.AddTestSigner(1_000_000)
 	e.sink = helpers.GenHexAddress()
 	for _, v := range s.ValAddr {
 		e.vals = append(e.vals, v.String())
@@ -131,11 +134,14 @@ func setup(t *testing.T, out *hx.Out) *env {
 	}
 	delegate(e.owner.AccAddress(), s.ValAddr[0], big18(5000))
 	delegate(e.owner2.AccAddress(), s.ValAddr[0], big18(1))
-	for _, a := range e.pool {
+	delegate(e.direct.AccAddress(), s.ValAddr[0], big18(1000))
+	delegate(e.direct.AccAddress(), s.ValAddr[1], big18(1000))
+	e.poolIdx[e.direct.Address()] = nPool
+	for _, a := range append(append([]common.Address{}, e.pool...), e.direct.Address()) {
 		s.App.StakingKeeper.SetAllowance(s.Ctx, s.ValAddr[0], e.owner.AccAddress(), a.Bytes(), big18(100).BigInt())
 		s.App.StakingKeeper.SetAllowance(s.Ctx, s.ValAddr[0], e.owner2.AccAddress(), a.Bytes(), big18(100).BigInt())
 	}
-	for _, a := range e.pool {
+	for _, a := range append(append([]common.Address{}, e.pool...), e.direct.Address()) {
 		for k := 0; k < 2; k++ {
 			id, err := s.App.EthKeeper.AddToOutgoingPool(s.Ctx, a.Bytes(), helpers.GenExternalAddr(ethtypes.ModuleName),
 				sdk.NewCoin(fxtypes.DefaultDenom, sdkmath.NewInt(1000)), sdk.NewCoin(fxtypes.DefaultDenom, sdkmath.NewInt(10)))
@@ -178,7 +184,7 @@ func setup(t *testing.T, out *hx.Out) *env {
 	maxU := new(big.Int).Sub(new(big.Int).Lsh(big.NewInt(1), 255), big.NewInt(1))
 	if pair, ok := s.App.Erc20Keeper.GetTokenPair(s.Ctx, fxtypes.DefaultDenom); ok {
 		e.wfx = pair.GetERC20Contract()
-		for _, a := range append(append([]common.Address{}, e.pool...), e.hookAddr...) {
+		for _, a := range append(append(append([]common.Address{}, e.pool...), e.hookAddr...), e.direct.Address()) {
 			if _, err := s.App.Erc20Keeper.ConvertCoin(s.Ctx, &erc20types.MsgConvertCoin{Coin: sdk.NewCoin(fxtypes.DefaultDenom, big18(1000)),
 				Receiver: a.Hex(), Sender: sdk.AccAddress(a.Bytes()).String()}); err != nil {
 				out.Count("setup:wfx-convert-error:" + firstLine(err.Error()))
@@ -200,7 +206,7 @@ func setup(t *testing.T, out *hx.Out) *env {
 			out.Count("setup:tst-deploy-error:" + firstLine(err.Error()))
 			return
 		}
-		for _, a := range append(append([]common.Address{}, e.pool...), e.hookAddr...) {
+		for _, a := range append(append(append([]common.Address{}, e.pool...), e.hookAddr...), e.direct.Address()) {
 			if _, err := s.App.EvmKeeper.ApplyContract(s.Ctx, mod, tok, nil, fip.ABI, "mint", a, big18(1000).BigInt()); err != nil {
 				out.Count("setup:tst-mint-error:" + firstLine(err.Error()))
 				return
@@ -213,7 +219,7 @@ func setup(t *testing.T, out *hx.Out) *env {
 			out.Count("setup:tst-register-error:" + firstLine(err.Error()))
 			return
 		}
-		for _, a := range append(append([]common.Address{}, e.pool...), e.hookAddr...) {
+		for _, a := range append(append(append([]common.Address{}, e.pool...), e.hookAddr...), e.direct.Address()) {
 			if _, err := s.App.EvmKeeper.ApplyContract(s.Ctx, a, tok, nil, fip.ABI, "approve", e.cross, maxU); err != nil {
 				out.Count("setup:tst-approve-error:" + firstLine(err.Error()))
 			}
@@ -280,6 +286,31 @@ type runObs struct {
 	gasUsed uint64
 }
 
+// rootTracer: when the transaction's `to` is a precompile, the EVM calls that precompile makes run at interpreter depth 0
+// and are announced with CaptureStart/CaptureEnd again; they are recorded as child frames of the open frame instead
+type rootTracer struct {
+	*evmx.Tracer
+	open int
+}
+
+func (t *rootTracer) CaptureStart(env *vm.EVM, from, to common.Address, create bool, input []byte, gas uint64, value *big.Int) {
+	if t.open == 0 {
+		t.Tracer.CaptureStart(env, from, to, create, input, gas, value)
+	} else {
+		t.Tracer.CaptureEnter(vm.CALL, from, to, input, gas, value)
+	}
+	t.open++
+}
+
+func (t *rootTracer) CaptureEnd(output []byte, gasUsed uint64, err error) {
+	t.open--
+	if t.open == 0 {
+		t.Tracer.CaptureEnd(output, gasUsed, err)
+	} else {
+		t.Tracer.CaptureExit(output, gasUsed, err)
+	}
+}
+
 func (e *env) warm() []common.Address { return []common.Address{e.staking, e.cross} }
 
 func statusOf(res *evmtypes.MsgEthereumTxResponse, err error) string {
@@ -329,6 +360,10 @@ func (e *env) dumpCosmos(ctx sdk.Context) map[string]string {
 func frameNodes(p *program, tr *evmx.Tracer) map[int]*evmx.Node {
 	res := map[int]*evmx.Node{}
 	isRoot := map[int]bool{0: true}
+	if p.direct && len(p.root) == 1 && len(tr.Frames) > 0 {
+		res[0] = p.root[0] // the root frame IS the precompile call
+		isRoot = map[int]bool{}
+	}
 	for i := 1; i < len(tr.Frames); i++ {
 		f := tr.Frames[i]
 		var list []*evmx.Node
@@ -353,15 +388,27 @@ func frameNodes(p *program, tr *evmx.Tracer) map[int]*evmx.Node {
 
 func (e *env) run(pctx sdk.Context, p *program, gasLimit uint64, traced bool) *runObs {
 	cctx, _ := pctx.CacheContext()
-	tx, err := evmx.SignedTx(cctx, e.s.App, e.signer, p.addrs[0], nil, nil, gasLimit, e.warm())
+	o := &runObs{}
+	if p.direct && len(p.root) == 0 { // reference run of a direct call that was not kept: no transaction at all
+		o.status = "ok"
+		o.dump = e.dumpCosmos(cctx)
+		return o
+	}
+	var tx *evmtypes.MsgEthereumTx
+	var err error
+	if p.direct {
+		nd := p.root[0]
+		tx, err = evmx.SignedTx(cctx, e.s.App, e.direct, nd.To, nd.Value, nd.Data, gasLimit, nil)
+	} else {
+		tx, err = evmx.SignedTx(cctx, e.s.App, e.signer, p.addrs[0], nil, nil, gasLimit, e.warm())
+	}
 	if err != nil {
 		panic(err)
 	}
-	o := &runObs{}
 	var res *evmtypes.MsgEthereumTxResponse
 	if traced {
 		o.tr = evmx.NewTracer()
-		res, err = evmx.SendTraced(cctx, e.s.App, tx, o.tr)
+		res, err = evmx.SendTraced(cctx, e.s.App, tx, &rootTracer{Tracer: o.tr})
 	} else {
 		res, err = evmx.Send(cctx, e.s.App, tx)
 	}
@@ -407,7 +454,7 @@ func (e *env) run(pctx sdk.Context, p *program, gasLimit uint64, traced bool) *r
 
 // prune returns the program restricted to frames that were kept in the traced run.
 func prune(p *program, tr *evmx.Tracer) *program {
-	q := &program{addrs: p.addrs, meta: p.meta, nodes: p.nodes, ctxOf: p.ctxOf, inner: map[int]*inner{}}
+	q := &program{addrs: p.addrs, meta: p.meta, nodes: p.nodes, ctxOf: p.ctxOf, inner: map[int]*inner{}, direct: p.direct}
 	if len(tr.Frames) == 0 || !tr.Kept(0) {
 		return q
 	}
@@ -456,8 +503,10 @@ func prune(p *program, tr *evmx.Tracer) *program {
 
 // install puts the program's contracts in place: the root tree and the hook contracts of the hook tokens in use
 func (e *env) install(ctx sdk.Context, p *program) error {
-	if err := evmx.InstallTree(ctx, e.s.App, p.addrs[0], p.root); err != nil {
-		return err
+	if !p.direct {
+		if err := evmx.InstallTree(ctx, e.s.App, p.addrs[0], p.root); err != nil {
+			return err
+		}
 	}
 	var err error
 	var walk func(list []*evmx.Node)
@@ -755,6 +804,7 @@ func TestC09(t *testing.T) {
 	nProg := hx.N(400, 2000)
 	debug := os.Getenv("VERIF_DEBUG") != ""
 	dir := e.directed(rand.New(rand.NewSource(seed ^ 0x5eed)))
+	dir = append(dir, e.directCalls(rand.New(rand.NewSource(seed^0xd1ec)))...)
 	for pi := 0; pi < nProg+len(dir); pi++ {
 		out.Reset()
 		var p *program
@@ -783,17 +833,32 @@ func TestC09(t *testing.T) {
 				}
 			}
 		}
+		if debug && p.direct {
+			fn := frameNodes(p, amp.tr)
+			for i, f := range amp.tr.Frames {
+				id := -1
+				if n, ok := fn[i]; ok {
+					id = n.ID
+				}
+				fmt.Printf("  frame %d parent %d to %s callpc %d err %q done %v -> node %d\n", i, f.Parent, f.To.Hex()[:10], f.CallPc, f.Err, f.Done, id)
+			}
+		}
 		if debug {
 			fmt.Printf("prog %d: %s\n  ample: %s used=%d vmerr=%q frames=%d\n", pi, text, amp.status, amp.gasUsed, amp.vmErr, len(amp.tr.Frames))
 		}
 		gl := e.gasPoints(rng, p, amp, intrinsic)
+		opw := "tx"
+		if p.direct {
+			opw = "direct"
+			gl = e.directGasPoints(rng, p, intrinsic)
+		}
 		refCache := map[string]*runObs{}
 		before := e.dumpCosmos(pctx)
 		for _, g := range gl {
 			real := e.run(pctx, p, g, false)
 			obs := real.status
 			if real.status == "rejected" || strings.HasPrefix(real.status, "error") {
-				out.Emit(fmt.Sprintf("tx %d %d %s", g, intrinsic, text), obs)
+				out.Emit(fmt.Sprintf("%s %d %d %s", opw, g, intrinsic, text), obs)
 				out.Count("status:" + real.status)
 				if ch := hx.DiffDump(before, real.dump); len(ch) > 0 {
 					out.Violate(fmt.Sprintf("rejected transaction changed Cosmos stores %v", ch))
@@ -841,7 +906,10 @@ func TestC09(t *testing.T) {
 				rootUsed = trc.tr.Frames[0].GasUsed
 			}
 			obs = fmt.Sprintf("%s gas=%d markers=%s kept=%s logs=%d ref=%s", real.status, rootUsed, ints(real.markers), ints(trc.kept), real.nPreLog, strings.SplitN(refs, ":", 2)[0])
-			out.Emit(fmt.Sprintf("tx %d %d %s", g, intrinsic, text), obs)
+			out.Emit(fmt.Sprintf("%s %d %d %s", opw, g, intrinsic, text), obs)
+			if p.direct {
+				out.Count("direct-call:" + p.meta[p.root[0].ID].variant + ":" + real.status)
+			}
 			// ---- monitors
 			dropped := 0
 			var dm []string
@@ -899,6 +967,26 @@ func TestC09(t *testing.T) {
 var effectStore = map[string]string{"delegateV2": "staking", "undelegateV2": "staking", "redelegateV2": "staking", "withdraw": "distribution",
 	"approveShares": "staking", "transferShares": "staking", "transferFromShares": "staking", "crossChain": "eth", "cancelSendToExternal": "eth",
 	"increaseBridgeFee": "eth", "bridgeCall": "eth", "executeClaim": "eth"}
+
+// directGasPoints: around the intrinsic gas, around intrinsic + RequiredGas, ample, a few random
+func (e *env) directGasPoints(rng *rand.Rand, p *program, intrinsic uint64) []uint64 {
+	req := e.reqGas[p.meta[p.root[0].ID].method]
+	pts := map[uint64]bool{ampleGL: true, intrinsic: true, intrinsic + 1: true, intrinsic + req: true, intrinsic + req + 1: true,
+		intrinsic + req + uint64(rng.Intn(300)): true, intrinsic + req + uint64(rng.Intn(20000)): true, intrinsic + req + uint64(rng.Intn(90000)): true,
+		intrinsic + uint64(rng.Intn(int(req)+1)): true}
+	if intrinsic > 0 {
+		pts[intrinsic-1] = true
+	}
+	if req > 0 {
+		pts[intrinsic+req-1] = true
+	}
+	var gl []uint64
+	for g := range pts {
+		gl = append(gl, g)
+	}
+	sort.Slice(gl, func(i, j int) bool { return gl[i] < gl[j] })
+	return gl
+}
 
 // failedInside lists the methods of precompile calls that got at least RequiredGas and still failed (the native action
 // itself failed or was cut short)
